@@ -21,6 +21,10 @@ ANCHORS = ["tx:supergates"]
 
 def gen(rng, ctx):
     big = ctx.tier == "thorough"
+    if rng.random() < (0.004 if big else 0.0005) or (ctx.gen_index == 0 and ctx.index < 3):
+        # blackbox-free bundled netlists; for the super-circuit form the cone of one output
+        name = rng.choice(["c17", "mux_2", "mux_4", "c17_gates"] + (["c432", "c880", "c499"] if big else ["c432"])) if ctx.gen_index else ["c17", "mux_4", "c432"][ctx.index % 3]
+        return {"lib": name, "supercircuit": rng.random() < 0.4, "shape": "lib", "seed": rng.getrandbits(32)}
     ni = rng.randint(2, 6 if not big else 8)
     ng = rng.randint(2, 10 if not big else 18)
     shape = rng.choice(["tree", "diamond", "random", "random", "multi", "wide", "chain"])
@@ -61,6 +65,27 @@ def gen(rng, ctx):
 
 def check(case, ctx):
     cg = ctx.cg
+    if "lib" in case:
+        import random
+
+        from rv.gen import libnets
+
+        cd = libnets.load(cg, case["lib"])
+        if case["supercircuit"]:
+            rr = random.Random(case["seed"])
+            o = rr.choice(sorted(x[0] for x in cd["nodes"] if x[2]))
+            preds = G.cd_preds(cd)
+            keep, st = {o}, [o]
+            while st:
+                x = st.pop()
+                for p_ in preds[x]:
+                    if p_ not in keep:
+                        keep.add(p_)
+                        st.append(p_)
+            cd = {"name": cd["name"], "nodes": [[n, t, n == o] for n, t, _ in cd["nodes"] if n in keep], "edges": [e for e in cd["edges"] if e[0] in keep and e[1] in keep], "bbs": {}}
+        case = dict(case, c=cd)
+        ctx.cur_case = case  # violations (and known-finding classifiers) see the circuit itself
+        ctx.count(f"lib:{case['lib']}")
     cd = case["c"]
     c = G.build(cg, cd, "sparse" if len(cd["nodes"]) % 3 == 0 else "graph")
     net = Net.of(c)
